@@ -32,18 +32,25 @@ def valid_name(n: str) -> bool:
     return bool(re.fullmatch(r"[A-Za-z0-9_]+", n))
 
 
-def run_order(stack: list[dict[str, Any]], cancelled: bool = False) -> list[dict[str, Any]]:
+def run_order(stack: list[dict[str, Any]], cancelled: bool = False, cancel_at: int | None = None) -> list[dict[str, Any]]:
     """Expected invocation order for a registration stack (top = last). When the block was
     cancelled the teardown runs in a cancelled scope: an asynchronous callback is invoked but its
     awaitable is cancelled at its first checkpoint, i.e. before it does or registers anything."""
     stack = list(stack)
     out = []
+    direct = {id(cb) for cb in stack}
     while stack:
         cb = stack.pop()
         if cancelled and cb["async"]:
             out.append({**cb, "body": [], "regs": [], "raises": {"k": "cancelled"}})
             continue
-        out.append(cb)
+        if not cancelled and cancel_at is not None and cb["id"] == cancel_at and id(cb) in direct:
+            # the cancellation arrives during this callback: it has done its work, ends cancelled (if it has a
+            # checkpoint at all), and everything still to run is in a cancelled scope
+            cancelled = True
+            out.append({**cb, "raises": {"k": "cancelled"}} if cb["async"] else cb)
+        else:
+            out.append(cb)
         stack.extend(cb["regs"])
     return out
 
@@ -448,7 +455,7 @@ def monitor_exit(sh: Shadow, i: int, op: dict[str, Any], r: dict[str, Any]) -> N
         return
     be = op["end"]
     be_name = "None" if be["k"] == "ret" else exc_spec_name(be)
-    order = run_order(x["tds"], cancelled=be["k"] == "cancelled")
+    order = run_order(x["tds"], cancelled=be["k"] == "cancelled", cancel_at=op.get("cancelAt"))
     if "NOT-CANCELLED" in res:
         sh.flag("HARNESS", f"step {i}: the cancellation of the block was not delivered")
     # ---- trace shape
